@@ -57,7 +57,9 @@ PATHS = ['/ok', '/rnd', '/empty', '/stream', '/red', '/ctx', '/x404', '/r409', '
          '/ok?_prof_sort=tottime', '/ok?_prof_sort=', '/x404?_prof_sort=nfl', '/red?_prof=', '/ok?unread_q=1&format=zzz',
          '/ctx?_prof_sort=%00', '/ok?callback=x', '/vary', '/vary2', '/vary',
          # bodies the application coded itself; a read-only render context
-         '/pre/deflate', '/pre/deflate', '/pre/gzip', '/pre/br', '/roctx', '/roctx']
+         '/pre/deflate', '/pre/deflate', '/pre/gzip', '/pre/br', '/roctx', '/roctx',
+         # a body handed through untouched; responses that carry no Content-Type at all
+         '/passthrough', '/passthrough', '/nocontent', '/nocontent', '/notmodified', '/notype']
 # Cookie headers a client may send although this server never set them (index 0 = the jar as it is)
 COOKIES = [None, 'clastic_cookie=garbage', 'clastic_cookie=AAAA?k=InYi', 'clastic_cookie="\xc3\xa9?\xc3\xa9=1"', 'clastic_cookie=a?b',
            'clastic_cookie=aAAAA?k=InYi', 'clastic_cookie=AAAA?\xc3\xa9k=InYi&x=1', 'other=1; clastic_cookie=%%%', 'clastic_cookie=',
@@ -147,13 +149,36 @@ def routes():
     def render_mapping(context):
         return Response(repr(sorted((k, repr(v)) for k, v in context.items())), mimetype='text/plain')
 
+    def passthrough(request):
+        from io import BytesIO
+        from werkzeug.wsgi import wrap_file
+        # a file-like handed straight to the server (sendfile): werkzeug must not touch the body
+        return Response(wrap_file(request.environ, BytesIO(RND * 3)), mimetype='application/octet-stream', direct_passthrough=True)
+
+    def nocontent():
+        resp = Response(status=204)
+        del resp.headers['Content-Type']        # nothing to describe
+        return resp
+
+    def notmodified():
+        resp = Response(status=304)
+        resp.headers.pop('Content-Type', None)
+        resp.headers['ETag'] = '"v1"'
+        return resp
+
+    def notype():
+        resp = Response(b'typeless body ' * 200)
+        del resp.headers['Content-Type']
+        return resp
+
     def size(n):
         # n compressible bytes: sizes sit on powers of two and their neighbours (buffer boundaries)
         return Response((b'0123456789abcdef' * (n // 16 + 1))[:n], mimetype='text/plain')
     return [('/ok', ok), ('/rnd', rndb), ('/empty', empty), ('/small', small), ('/text', text), ('/stream', stream), ('/red', red),
             ('/ctx', ctx, render_basic), ('/x404', x404), ('/r409', r409), ('/r404', r404), ('/nb', nb), ('/nbret', nbret),
             ('/r400nb', r400nb), ('/x503', x503), ('/boom', boom), ('/boomkey', boomkey), GET('/g', ok), POST('/form', form), ('/pre/deflate', pre_deflate), ('/pre/gzip', pre_gzip), ('/pre/br', pre_other),
-            ('/roctx', ro_ctx, render_mapping), ('/b/', ok), ('/size/<n:int>', size), ('/vary', vary), ('/vary2', vary2)]
+            ('/roctx', ro_ctx, render_mapping), ('/passthrough', passthrough), ('/nocontent', nocontent), ('/notmodified', notmodified),
+            ('/notype', notype), ('/b/', ok), ('/size/<n:int>', size), ('/vary', vary), ('/vary2', vary2)]
 
 
 class OsProxy(object):
